@@ -17,8 +17,15 @@ def anm_case(ctx, r):
     game = r.pick(['th07', 'th08', 'th10', 'th12', 'th14', 'th17'])
     nent = r.randint(1, 3)
     consts = {}
-    if r.chance(0.3): consts['BASE'] = r.randint(0, 50)
+    if r.chance(0.4): consts['BASE'] = r.randint(0, 50)
     text = ''.join('const int %s = %d;\n' % kv for kv in consts.items())
+    def const_id_expr():
+        # (text, value): constant expressions over BASE with operators whose value is easy to state independently
+        K = consts['BASE']
+        n, a, b, m = r.randint(1, 9), r.randint(0, 60), r.randint(0, 60), r.pick([1, 2, 4, 6, 8, 12])
+        return r.pick([('BASE + %d' % n, K + n), ('BASE * %d' % n, K * n), ('(BASE & %d) ? %d : %d' % (m, a, b), a if K & m else b), ('(BASE > %d) ? %d : %d' % (n, a, b), a if K > n else b),
+                       ('(BASE %% %d) + %d' % (n, a), K % n + a), ('BASE << 1', K << 1), ('(BASE | %d) - (BASE & %d)' % (m, m), (K | m) - (K & m)), ('BASE ? %d : %d' % (a, b), a if K else b),
+                       ('(BASE == %d) + %d' % (K, a), 1 + a), ('(BASE * 3 + %d) / 2' % n, (K * 3 + n) // 2), ('(%d ? BASE : %d) + %d' % (n + 1, a, b), K + b)])
     next_id = 0
     sprites = {}        # name -> expected id
     sprite_lists = []
@@ -34,10 +41,10 @@ def anm_case(ctx, r):
                 if any(name == n for n, _ in lst): continue
             else:
                 name = 'spr%d' % nsp; nsp += 1
-            k = r.wpick([('auto', 5), ('explicit', 3), ('const', 1 if consts else 0), ('same-as-before', 1.5 if name in sprites else 0)])
+            k = r.wpick([('auto', 5), ('explicit', 3), ('const', 2.5 if consts else 0), ('same-as-before', 1.5 if name in sprites else 0)])
             if k == 'auto': idv, idtext = next_id, None
             elif k == 'explicit': idv = r.pick([next_id, r.randint(0, 60), max(0, next_id - r.randint(1, 5))]); idtext = str(idv)
-            elif k == 'const': off = r.randint(0, 5); idv = consts['BASE'] + off; idtext = 'BASE + %d' % off
+            elif k == 'const': idtext, idv = const_id_expr(); idtext = '(%s)' % idtext
             else: idv = sprites[name]; idtext = str(idv)
             next_id = idv + 1
             if name in sprites and sprites[name] != idv: conflict = True
